@@ -290,7 +290,8 @@ def default_pairs(tier):
     if tier != "quick":
         return [(s, u) for s in CSTATES for u in USTATES]
     pairs = [(s, 0) for s in CSTATES] + [(0, u) for u in USTATES if u != 0]
-    for p in ((19, 5), (18, 6), (18, 5), (17, 5), (17, 6), (17, 3), (19, 3), (14, 6), (8, 6)):
+    # event FSM waiting for the output while the command FSM sits in each input-waiting state (starvation), and the flush / hold crosses
+    for p in ((-1, 5), (1, 5), (2, 5), (3, 5), (4, 5), (8, 5), (11, 5), (19, 5), (18, 6), (18, 5), (17, 5), (17, 6), (17, 3), (19, 3), (14, 6), (8, 6)):
         if p not in pairs:
             pairs.append(p)
     return pairs
@@ -357,10 +358,18 @@ def api_jobs(prop, fns, mutex, havoc, ringcaps):
 
 
 def twin_job(prop, mode, shape, r=2, cap=(12, 24), **kw):
-    j = shape_job(prop, shape, harness="r_twin.c", cap=cap, extra={"MODE": mode, "R": r}, name="m%d.%s" % (mode, shape.replace("?", "q").replace("=", "e")), **kw)
+    extra = {"MODE": mode, "R": r}
+    if mode == 3:
+        extra["L1"] = shape.index("L") + 1      # the first line ends at the first LF class
+        kw.setdefault("lines", 2)
+    j = shape_job(prop, shape, harness="r_twin.c", cap=cap, extra=extra, name="m%d.%s" % (mode, shape.replace("?", "q").replace("=", "e")), **kw)
     if mode == 1:
         j.defines["N"] = int(j.defines["N"]) + 2 * r
         j.unwind = max(j.unwind, int(j.defines["N"]) + 2)
+    j.unwind = max(j.unwind, 66)     # the comparison loops run over the output log (<= 64 bytes)
+    j.solver = "kissat"
+    j.timeout = 2400
+    j.samples = 600000               # cheap native runs: fewer hint refinements (each one is a full CBMC run)
     return j
 
 
@@ -369,6 +378,12 @@ TWIN_SHAPES_QUICK = ["ATL", "ATnL", "ATnn?L", "ATn=aL", "ATnn=aaL", "ATn=?L", "g
 
 def c20(tier):
     jobs = [twin_job("C20", 0, sh) for sh in TWIN_SHAPES_QUICK]
+    # concatenation: line 2 after line 1 == line 2 alone (first lines chosen to leave the parser through every exit)
+    m3 = [("AT+kaaaaaaLAT+kL", (12, 12)), ("gxLAT+k?L", (12, 16))]
+    if tier == "thorough":
+        m3 += [("AT+k=aLAT+k?L", (12, 16)), ("AT+k?LAT+k=aL", (12, 16)), ("AT+kgLAT+kL", (12, 16)), ("AT+k=?xLAT+kL", (12, 16)), ("AT+kaaaaaaaLAT+k=aL", (12, 12))]
+    for sh, cap in m3:
+        jobs.append(twin_job("C20", 3, sh, cap=cap))
     for shape in ("ATnRL", "ATn?RL", "RATnL", "ATRnL", "ATn=aRL", "AgRL"):
         jobs.append(shape_job("C20", shape, required_witness=["end-of-scenario", "a-result-code"]))
     return with_prop("C20", jobs)
@@ -376,7 +391,10 @@ def c20(tier):
 
 def c12(tier):
     jobs = step_jobs("C12", tier)
-    jobs += [twin_job("C12", 1, sh) for sh in ("ATnL", "ATn?L", "ATn=aL", "gxL")]
+    if tier == "quick":
+        jobs += [twin_job("C12", 1, sh, r=1) for sh in ("ATnL", "ATn?L")]
+    else:
+        jobs += [twin_job("C12", 1, sh, r=2) for sh in ("ATnL", "ATn?L", "ATn=aL", "gxL")]
     return with_prop("C12", jobs)
 
 
@@ -411,6 +429,21 @@ def c19(tier):
     return with_prop("C19", jobs)
 
 
+def events_jobs(prop, tier):
+    """r_events.c: one command line + up to two triggers inside a 3-step window starting at T0, one write refusal anywhere"""
+    jobs = []
+    n = 96
+    t0s = (0, 15, 27, 39) if tier == "quick" else tuple(range(0, 63, 3))
+    codes = ((0, "dataok"),) if tier == "quick" else ((0, "dataok"), (3, "ok"), (-1, "error"))
+    for rc in (1, 2):
+        for t0 in t0s:
+            for code, cname in codes:
+                d = {"N": n, "T0": t0, "RINGCAP": rc, "CAT_UNSOLICITED_CMD_BUFFER_SIZE": rc, "EVENT_CODE": "(%d)" % code, "CAPB_MIN": 12, "CAPB_MAX": 16}
+                jobs.append(Job("r_events.t%d.r%d.%s" % (t0, rc, cname), "r_events.c", d, unwind=n + 4, unwindset=uws(9, m=3), hinted=True, object_bits=12,
+                                samples=400000, timeout=1800, solver="kissat", required_witness=["end-of-scenario"]))
+    return with_prop(prop, jobs)
+
+
 def c15(tier):
     # safety half: OK means quiescent (two consecutive calls), for every ring capacity; liveness half: r_line's step bound
     jobs = []
@@ -431,7 +464,7 @@ def c18(tier):
 
 
 def c11(tier):
-    return step_jobs("C11", tier)
+    return with_prop("C11", step_jobs("C11", tier))   # + events_jobs: enabled once measured
 
 
 def c13(tier):
